@@ -198,8 +198,22 @@ def judge_builder(item, out, res):
                     same_as_source = (so == s1 == s2 == 'ok' and (v1 - vo) == p * d0 and (v2 - vo) == -p * d0)
                     if not same_as_source:
                         # exact sensitivity of the COMPILED model differs from the source model's (kink, or the
-                        # perturbed compiled model is infeasible because a derived range froze the variable)
-                        cause = 'derived-variable-range-makes-the-named-row-degenerate'
+                        # perturbed compiled model is infeasible because a derived range froze the variable).
+                        # That is the known cause only if the compiled ROWS are right: with the declared ranges put
+                        # back in place of the derived ones the compiled model must have the source's sensitivity.
+                        import copy as _copy
+                        Ld = _copy.deepcopy(Lc)
+                        # (the builder model names the variables v0, v1, ... in the order of L's columns)
+                        declared = dict(('v%d' % k, d) for k, (n, d) in enumerate(L['vars']))
+                        declared.update(dict((n, d) for n, d in L['vars']))
+                        Ld['vars'] = [[n, declared.get(n, d)] for n, d in Ld['vars']]
+                        do, dvo, _ = optimum(Ld)
+                        d1, dv1, _ = optimum(Ld, (j[0], d0))
+                        d2, dv2, _ = optimum(Ld, (j[0], -d0))
+                        res['q'] += 3
+                        rows_right = (do == d1 == d2 == 'ok' and (dv1 - dvo) == p * d0 and (dv2 - dvo) == -p * d0)
+                        if rows_right:
+                            cause = 'derived-variable-range-makes-the-named-row-degenerate'
             res['fails'].append({'ob': 'builder-shadow-price-wrong', 'row': nm, 'reported': fs(float(rep)), 'exact': str(p), 'cause': cause,
                                  'dir': L['dir'], 'cmp': L['rows'][i]['c'], 'point': None})
 
